@@ -349,6 +349,7 @@ type cencJob struct {
 	initBytes     []byte
 	segBytes      []byte
 	infos         []mSample
+	sliceHead     []byte // generated cbcs video: head of a real slice copied into every video NAL unit
 }
 
 var ivClasses = [][]byte{
@@ -424,6 +425,36 @@ func cencDrive(args []string) error {
 		}
 		rep.Count(fmt.Sprint(c.Codec, c.Nals), true, nil)
 	}
+	// cbcs video on generated samples: every video NAL unit starts with the head of a real slice of the corpus
+	// (so that the slice header parses against the init's SPS/PPS), followed by token bytes; several
+	// protected ranges per sample (multi-slice pictures), each of which restarts the CBC chain from the constant IV
+	if head := corpusSliceHead(argValue(args, "-corpus", "/repo/mp4/testdata")); head != nil {
+		n := 0
+		for ci, c := range cases {
+			if c.Codec != "avc" {
+				continue
+			}
+			ok, nv := true, 0
+			for _, nl := range c.Nals {
+				if nl.Kind == "v" {
+					nv++
+					if nl.Len < len(head)+8 {
+						ok = false
+					}
+				}
+			}
+			if !ok || nv == 0 {
+				continue
+			}
+			job := cencJob{codec: "avc", scheme: "cbcs", initBytes: inits["avc"], sliceHead: head, iv: ivClasses[(ci+2)%len(ivClasses)], ivLen: 16,
+				extras: []string{"none", "nouuid-in-traf", "all"}[ci%3]}
+			job.samples = [][]cencNal{c.Nals, c.Nals}
+			cencRun(rep, tw7, tw6, &job, key, fmt.Sprintf("cbcs-video-case%d", ci))
+			rep.Count(fmt.Sprint("cbcs-video", c.Nals), true, nil)
+			n++
+		}
+		rep.Extra["cbcs_video_generated"] = n
+	}
 	// corpus: clear AVC content with real slice headers, both schemes
 	dir := argValue(args, "-corpus", "/repo/mp4/testdata")
 	ini, e1 := ioutil.ReadFile(filepath.Join(dir, "init.mp4"))
@@ -444,6 +475,35 @@ func cencDrive(args []string) error {
 		return err
 	}
 	return tw6.Close()
+}
+
+// corpusSliceHead returns the first bytes of the first slice NAL unit of the corpus segment 1.m4s.
+func corpusSliceHead(dir string) []byte {
+	ini, e1 := ioutil.ReadFile(filepath.Join(dir, "init.mp4"))
+	seg, e2 := ioutil.ReadFile(filepath.Join(dir, "1.m4s"))
+	if e1 != nil || e2 != nil {
+		return nil
+	}
+	rd, err := isoReadFragments(cat(ini, seg))
+	if err != nil {
+		return nil
+	}
+	for _, ss := range rd {
+		for _, s := range ss {
+			pos := 0
+			for pos+4 <= len(s.Data) {
+				n := int(binary.BigEndian.Uint32(s.Data[pos:]))
+				if pos+4+n > len(s.Data) || n == 0 {
+					break
+				}
+				if t := s.Data[pos+4] & 0x1f; t == 5 && n >= 32 {
+					return append([]byte{}, s.Data[pos+4:pos+4+32]...)
+				}
+				pos += 4 + n
+			}
+		}
+	}
+	return nil
 }
 
 func nalsOfSample(s []byte) []cencNal {
@@ -488,6 +548,15 @@ func cencRun(rep *Report, tw7, tw6 *TraceWriter, job *cencJob, key []byte, name 
 		var payload []byte
 		for i, nl := range job.samples {
 			b := sampleBytes(job.codec, nl, i+1)
+			if job.sliceHead != nil {
+				at := 0
+				for _, n := range nl {
+					if n.Kind == "v" {
+						copy(b[at+4:], job.sliceHead)
+					}
+					at += 4 + n.Len
+				}
+			}
 			clearSamples = append(clearSamples, b)
 			payload = append(payload, b...)
 			job.infos = append(job.infos, mSample{Dur: int64(3000 + i), Size: int64(len(b)), Flags: 0x02000000, Cto: int64(i)})
@@ -553,7 +622,8 @@ func cencRun(rep *Report, tw7, tw6 *TraceWriter, job *cencJob, key []byte, name 
 	}
 	var spsMap map[uint32]*avc.SPS
 	var ppsMap map[uint32]*avc.PPS
-	if job.corpus {
+	realSlices := job.corpus || job.sliceHead != nil
+	if realSlices {
 		avcC := f.Init.Moov.Trak.Mdia.Minf.Stbl.Stsd.Children[0].(*mp4.VisualSampleEntryBox).AvcC
 		spsMap, ppsMap = map[uint32]*avc.SPS{}, map[uint32]*avc.PPS{}
 		for _, n := range avcC.SPSnalus {
@@ -609,7 +679,7 @@ func cencRun(rep *Report, tw7, tw6 *TraceWriter, job *cencJob, key []byte, name 
 				p += r[0] + r[1]
 			}
 			var nals []cencNal
-			if job.corpus {
+			if realSlices {
 				nals = nalsOfSample(clear)
 				at := 0
 				for i := range nals {
